@@ -142,6 +142,17 @@ def check_middleware(acc):
     for s in strings:
         for inplace in (True, False):
             fields = [Field("author", s), Field("title", s), Field("editor", s), Field("translator", s), Field("Author", s)]
+            if "and" in s.lower():
+                # programmatically built entries may hold a key twice: every occurrence is its own value
+                twice = Entry("article", "k2", [Field("author", s), Field("author", "X Y" + SEPS[0] + "Z"), Field("author", s)])
+                try:
+                    o = SeparateCoAuthors(allow_inplace_modification=inplace).transform(Library([twice])).blocks[0]
+                    got3 = [f.value for f in o.fields]
+                    exp3 = [R.split_coauthors(s), ["X Y", "Z"], R.split_coauthors(s)]
+                    if got3 != exp3:
+                        acc.violation({"oracle": "middleware_separates_name_fields", "field": "author (key held twice)"}, {"case": {"middleware": s, "inplace": inplace}, "observed": got3, "expected": exp3})
+                except Exception as ex:
+                    acc.exception(ex, {"middleware": s, "inplace": inplace}, "SeparateCoAuthors on an entry holding a key twice")
             e = Entry("article", "k", fields, start_line=3, raw="raw")
             lib = Library([e])
             acc.trace()
